@@ -6,6 +6,9 @@
 (*     handler name or not (a fresh name / the base's name / exactly the   *)
 (*     derived name), class names from the CamelCase pattern list and -    *)
 (*     for one-class chains - every identifier over a small alphabet;      *)
+(*     optionally with a mix-in class (own handler name or not) listed     *)
+(*     before the parent in the bases of the first class, so that the      *)
+(*     resolution order is not just the chain of first bases;              *)
 (*   - every subset of the handler names along the resolution order as     *)
 (*     the set the user mapper implements;                                 *)
 (*   - foreign objects x sets of foreign handlers implemented;             *)
@@ -47,18 +50,25 @@ OwnChoices(base, pos, name, full) ==
     \cup (IF full /\ pos = 1 THEN {DerivedHandler(name)} ELSE {})
 
 MaxChain == 3
+UCls(name, deco, own, mix) == [name |-> name, deco |-> deco, own |-> own, mix |-> mix]
+MixinName == << "L","o","g","g","i","n","g","M","i","x","i","n" >>
 \* classes that may be appended at position pos of a chain under base
 ClassChoices(base, pos, first) ==
     IF pos = 1 /\ first = "patterns"
-    THEN { Cls(nm, d, o) : nm \in PatternNames, d \in BOOLEAN,
+    THEN { UCls(nm, d, o, FALSE) : nm \in PatternNames, d \in BOOLEAN,
                            o \in {"", Custom(1), BaseHandler(base)} }
-         \cup { Cls(nm, TRUE, DerivedHandler(nm)) : nm \in { << "F","o","o" >>, << "A","B","c" >> } }
+         \cup { UCls(nm, TRUE, DerivedHandler(nm), FALSE) : nm \in { << "F","o","o" >>, << "A","B","c" >> } }
     ELSE IF pos = 1 /\ first = "alphabet"
-    THEN { Cls(nm, TRUE, "") : nm \in AlphabetNames }
-    ELSE { Cls(NameAt(pos), d, o) :
+    THEN { UCls(nm, TRUE, "", FALSE) : nm \in AlphabetNames }
+    ELSE IF pos = 1 /\ first = "mixin"
+    \* a mix-in: derives from Expression only and is listed before the parent in the bases of
+    \* the next class, so that the resolution order is not a chain of first bases
+    THEN { UCls(MixinName, d, o, TRUE) : d \in BOOLEAN, o \in {"", "map_mixin"} }
+    ELSE LET p == IF first = "mixin" THEN pos - 1 ELSE pos IN
+         { UCls(NameAt(p), d, o, FALSE) :
              d \in BOOLEAN,
              o \in IF Tier = "quick" /\ pos = 3 THEN {""}
-                    ELSE OwnChoices(base, pos, NameAt(pos), TRUE) }
+                    ELSE OwnChoices(base, pos, NameAt(p), TRUE) }
 
 Universe(h) == { MRONames(Lineage(h))[k] : k \in 1..Len(Lineage(h)) } \ {""}
 
@@ -78,6 +88,7 @@ Init ==
     \/ /\ phase = "build" /\ impl = {}
        /\ obj \in { UserObj(b, << >>, f) : b \in Bases, f \in {"patterns"} }
                   \cup { UserObj("Sum", << >>, "alphabet"), UserObj("Expression", << >>, "alphabet") }
+                  \cup { UserObj(b, << >>, "mixin") : b \in {"Expression", "Variable", "Sum"} }
     \/ /\ phase = "done"
        /\ obj \in { ForeignObj(k, r) : k \in ForeignKinds, r \in BOOLEAN }
        /\ obj.reg => Category(obj.kind) = "other-number"
@@ -85,14 +96,17 @@ Init ==
 
 Extend ==
     /\ phase = "build" /\ Len(obj.chain) < MaxChain
-    /\ obj.first = "patterns" \/ Len(obj.chain) = 0
+    /\ obj.first \in {"patterns", "mixin"} \/ Len(obj.chain) = 0
     \* longer chains: the position decides the class name
-    /\ Len(obj.chain) >= 1 => obj.chain[1].name = NameAt(1) /\ obj.chain[1].own # DerivedHandler(NameAt(1))
+    /\ (Len(obj.chain) >= 1 /\ obj.first = "patterns")
+          => obj.chain[1].name = NameAt(1) /\ obj.chain[1].own # DerivedHandler(NameAt(1))
     /\ \E c \in ClassChoices(obj.base, Len(obj.chain) + 1, obj.first) :
-          obj' = [obj EXCEPT !.chain = Append(@, c)]
+          \* a decorated mix-in brings a field-less __init__: the class below it must be decorated
+          /\ (Len(obj.chain) = 1 /\ obj.chain[1].mix /\ obj.chain[1].deco) => c.deco
+          /\ obj' = [obj EXCEPT !.chain = Append(@, c)]
     /\ UNCHANGED << impl, phase >>
 Finish ==
-    /\ phase = "build" /\ Len(obj.chain) >= 1
+    /\ phase = "build" /\ Len(obj.chain) >= 1 /\ ~obj.chain[Len(obj.chain)].mix
     /\ \E H \in SUBSET Universe(obj) : impl' = H
     /\ phase' = "done" /\ UNCHANGED obj
 Next == Extend \/ Finish
@@ -135,7 +149,7 @@ Emit == Complete =>
       THEN [ty |-> "user", base |-> obj.base,
             chain |-> [i \in 1..Len(obj.chain) |->
                           [name |-> obj.chain[i].name, deco |-> obj.chain[i].deco,
-                           own |-> obj.chain[i].own]],
+                           own |-> obj.chain[i].own, mix |-> obj.chain[i].mix]],
             impl |-> impl]
       ELSE [ty |-> "foreign", kind |-> obj.kind, reg |-> obj.reg, impl |-> impl]))
 
